@@ -65,6 +65,7 @@ type vmachine struct {
 
 	pdts     [4]PageDirectoryTable
 	sections []vmSection
+	mu       []byte // host buffer for the kernel.Memset / kernel.Memcopy tie (guard bytes around the target)
 	lastDump string
 	lastCode int // result code of the last op (-1: aborted)
 }
@@ -422,9 +423,56 @@ func (m *vmachine) tableOf(va uintptr, level int) (uint64, bool) {
 	return uint64(table >> 12), m.inArena(table, 4096)
 }
 
+const vmMuN = 20736
+
+func vmMuPattern(seed, i uint64) byte { return byte(i*7 + seed*13 + i/256) }
+
+// memUtil runs kernel.Memset / kernel.Memcopy on a host buffer filled with a pattern and reports
+// hash of the whole buffer (guards included), number of bytes that differ from the pattern, first and
+// last differing index (vmMuN when none).
+func (m *vmachine) memUtil(name string, op []uint64) string {
+	if m.mu == nil {
+		m.mu = make([]byte, vmMuN)
+	}
+	seed := op[0]
+	for i := range m.mu {
+		m.mu[i] = vmMuPattern(seed, uint64(i))
+	}
+	base := uintptr(unsafe.Pointer(&m.mu[0]))
+	switch name {
+	case "memset":
+		off, val, size := op[1], op[2], op[3]
+		if off+size > vmMuN-64 || off < 64 {
+			panic("verif: memset op outside the guarded buffer")
+		}
+		kernel.Memset(base+uintptr(off), byte(val), uintptr(size))
+	case "memcopy":
+		src, dst, size := op[1], op[2], op[3]
+		if src+size > vmMuN-64 || dst+size > vmMuN-64 || src < 64 || dst < 64 {
+			panic("verif: memcopy op outside the guarded buffer")
+		}
+		kernel.Memcopy(base+uintptr(src), base+uintptr(dst), uintptr(size))
+	}
+	h := uint64(14695981039346656037)
+	nd, first, last := 0, uint64(vmMuN), uint64(vmMuN)
+	for i, b := range m.mu {
+		h = (h ^ uint64(b)) * 1099511628211
+		if b != vmMuPattern(seed, uint64(i)) {
+			nd++
+			if first == vmMuN {
+				first = uint64(i)
+			}
+			last = uint64(i)
+		}
+	}
+	return fmt.Sprintf("%d %d %d %d", h, nd, first, last)
+}
+
 // exec runs one op (tokens as printed in the trace) against the real code.
 func (m *vmachine) exec(op []uint64, name string) (string, bool) {
 	switch name {
+	case "memset", "memcopy":
+		return m.memUtil(name, op), true
 	case "init":
 		m.reset(op[2])
 		return m.run(func() (int, uint64) { return 0, 0 })
